@@ -210,6 +210,12 @@ class Session:
     with contextlib.ExitStack() as stack:
       for a in op['enter']:
         stack.enter_context(gin.config_scope(self.scope_arg(a)))
+      if '_bad_enter' in op:
+        try:
+          with gin.config_scope(op['_bad_enter']):
+            pass
+        except ValueError:
+          pass
       if ent.api == 'register' or op.get('_via') == 'get_configurable':
         fn = gin.get_configurable(ent.original)
       elif op.get('_via') == 'selector':
@@ -642,6 +648,11 @@ class Session:
         r = self.op_query(op)
       elif name == 'getb':
         r = self.op_getb(op)
+      elif name == 'getbq':
+        r = self.op_getb(dict(op, sel=op['q'], _spelling=op['q']))
+        if op.get('_also_get_configurable'):
+          # the same spelling through get_configurable must be judged the same way (raises here if not)
+          self.gin.get_configurable('/'.join(list(op['scope']) + [op['q']]))
       elif name == 'operative':
         r = self.store_json(self.cfg._OPERATIVE_CONFIG)  # pylint: disable=protected-access
       elif name == 'config':
